@@ -13,7 +13,8 @@ abbrev SizerAt (all : List Member) (allv : List Val) (n : String) (t : Ty) : Pro
 theorem Py.fieldDec_fixed_arr (e : Endian) (all : List Member) (n : String) (t : Ty) (c : Nat) (f : Py.St) (data : Bytes)
     (pos : Nat) (hints : List (String × Nat)) (term : Bool) (htb : t ≠ .byte) :
     Py.fieldDec e all n t (.fixed c) f data pos hints term =
-      (do let (vs, cur) ← Py.decN (fun d q => Py.decTy e t d q false) c data pos 0
+      (do if (f.size : Int) > (data.length : Int) - (pos : Int) then .error .prophy
+          let (vs, cur) ← Py.decN (fun d q => Py.decTy e t d q false) c data pos 0
           pure (Val.arr vs, cur, hints)) := by
   cases t <;> first | exact absurd rfl htb | rfl
 
@@ -425,8 +426,16 @@ mutual
       | fixed c =>
         have hl : xs.length = c := by cases t <;> simp_all [hasField]
         subst hl
-        rw [Py.fieldDec_fixed_arr _ _ _ _ _ _ _ _ _ _ htb, IH.1]
-        simp [bind, Except.bind, pure, Except.pure, Spec.fieldChunks]
+        have hfxt := hfx rfl
+        have hsz' := Py.stTy_size t hfxt
+        have hcl := fixed_elems xs t hfxt hel
+        -- the guard of `decode_array` does not fire: the encoded array occupies exactly `f.size` bytes from `pos`
+        have hg0 : ¬ (((Py.fieldSt (Py.stTy t) (.fixed xs.length)).size : Int) > (data.length : Int) - (pos : Int)) := by
+          show ¬ (((xs.length * (Py.stTy t).size : Nat) : Int) > _); rw [hsz']; omega
+        rw [Py.fieldDec_fixed_arr _ _ _ _ _ _ _ _ _ _ htb]
+        simp only [bind, Except.bind]
+        rw [if_neg hg0, IH.1]
+        simp [pure, Except.pure, Spec.fieldChunks]
       | dyn s sh =>
         have hh' : Py.lookupHint hints n = .ok xs.length := by
           unfold Py.lookupHint; rw [hhint s rfl]; rfl
